@@ -573,6 +573,25 @@ func (fx *FnExec) call(instr ssa.Instruction, cc *ssa.CallCommon, pos token.Pos)
 		}
 		fx.outs = nil
 	} else {
+		// a call of a function value held in a named local (`for _, action := range ...; action(x)`): the caller's
+		// `callpre` clauses may name it by that local ("action@1")
+		if !cc.IsInvoke() && cc.StaticCallee() == nil && fx.con != nil && fx.con.CallPre != nil {
+			var names []string
+			for n, vs := range fx.names {
+				for _, v := range vs {
+					if v == cc.Value {
+						names = append(names, n)
+					}
+				}
+			}
+			sort.Strings(names)
+			for _, n := range names {
+				ck := fmt.Sprintf("%s@%d", n, fx.ord("call:fnvalue:"+n))
+				if err := fx.emitCallPre([]string{ck}, "the function value "+n, recv, args, pos); err != nil {
+					return Val{}, err
+				}
+			}
+		}
 		if fx.calleeIsPure(cc) {
 			fx.usedContracts["pure-package:"+key] = true
 		} else {
@@ -641,6 +660,43 @@ func splitResults(fx *FnExec, result Val, resT *types.Tuple) []Val {
 	return out
 }
 
+// emitCallPre states the caller's `callpre` clauses for the call that is about to happen; cks are the spellings under
+// which the clauses may name the callee ("Name@n")
+func (fx *FnExec) emitCallPre(cks []string, what string, recv *Val, args []Val, pos token.Pos) error {
+	if fx.con != nil && fx.con.CallPre != nil {
+		for _, ck := range cks {
+		fx.seenCallPre[ck] = true
+		for i, r := range fx.con.CallPre[ck] {
+			cenv := fx.specEnv(&fx.cur, &fx.entry, nil)
+			for j := range args {
+				cenv.names[fmt.Sprintf("arg%d", j)] = args[j]
+			}
+			if recv != nil {
+				cenv.names["recv"] = *recv
+			}
+			t, err := cenv.evalBool(r.Text)
+			if err != nil {
+				return fmt.Errorf("%s:%d: %v", r.File, r.Line, err)
+			}
+			lab := ck + "."
+			if r.Label != "" {
+				lab += r.Label
+			} else {
+				lab += fmt.Sprint(i + 1)
+			}
+			o := fx.oblige("callpre", lab, t, "before the call of "+what+": "+r.Text, pos)
+			o.Props = fx.con.Props
+			// `clauseprops <label-prefix> Cxx Cyy`: this clause belongs to those properties only
+			if cp := strings.Fields(fx.con.Flags["clauseprops"]); len(cp) > 1 && r.Label != "" && strings.HasPrefix(r.Label, cp[0]) {
+				o.Props = cp[1:]
+				o.OnlyProps = true
+			}
+		}
+		}
+	}
+	return nil
+}
+
 func (fx *FnExec) applyContract(con *Contract, key string, recv *Val, args []Val, resultType types.Type, resT *types.Tuple, pos token.Pos) (Val, error) {
 	fx.inContractApply = true
 	defer func() { fx.inContractApply = false }()
@@ -663,7 +719,7 @@ func (fx *FnExec) applyContract(con *Contract, key string, recv *Val, args []Val
 		}
 		fx.oblige("pre", lab, t, "precondition of "+displayKey(key)+": "+r.Text, pos)
 	}
-	if fx.con != nil && fx.con.CallPre != nil {
+	{
 		// the clause names the callee by its short name, or - where two callees share it - by its display key with or
 		// without the package prefix
 		dk := displayKey(key)
@@ -672,35 +728,8 @@ func (fx *FnExec) applyContract(con *Contract, key string, recv *Val, args []Val
 			cks = append(cks, fmt.Sprintf("%s@%d", dk[i+1:], callOrd))
 		}
 		// for a package-level function the short name and the key without its package coincide: one clause, one obligation
-		cks = dedup(cks)
-		for _, ck := range cks {
-		fx.seenCallPre[ck] = true
-		for i, r := range fx.con.CallPre[ck] {
-			cenv := fx.specEnv(&fx.cur, &fx.entry, nil)
-			for j := range args {
-				cenv.names[fmt.Sprintf("arg%d", j)] = args[j]
-			}
-			if recv != nil {
-				cenv.names["recv"] = *recv
-			}
-			t, err := cenv.evalBool(r.Text)
-			if err != nil {
-				return Val{}, fmt.Errorf("%s:%d: %v", r.File, r.Line, err)
-			}
-			lab := ck + "."
-			if r.Label != "" {
-				lab += r.Label
-			} else {
-				lab += fmt.Sprint(i + 1)
-			}
-			o := fx.oblige("callpre", lab, t, "before the call of "+displayKey(key)+": "+r.Text, pos)
-			o.Props = fx.con.Props
-			// `clauseprops <label-prefix> Cxx Cyy`: this clause belongs to those properties only
-			if cp := strings.Fields(fx.con.Flags["clauseprops"]); len(cp) > 1 && r.Label != "" && strings.HasPrefix(r.Label, cp[0]) {
-				o.Props = cp[1:]
-				o.OnlyProps = true
-			}
-		}
+		if err := fx.emitCallPre(dedup(cks), displayKey(key), recv, args, pos); err != nil {
+			return Val{}, err
 		}
 	}
 	old := fx.cur.clone()
